@@ -156,6 +156,14 @@ def c15_configs(thorough):
         out.append(("dfs", dict(driver=d, budget={"cancel": 1},
                                 callers=[("seq", ["dtq", ("sleep", 0.01), "cfg"], {}), ("send", "dtq", {})]), n))
         out.append(("dfs", dict(driver=d, budget={"noise": 2}, callers=[("send", "dtq", {}), ("send", "qn", {})]), n))
+        if d in ("luba", "sci"):
+            # the gateway's confirmation / answer may arrive LATER than the driver's timeout (timers may fire while
+            # a report is still on its way): the wire must still hold whole units, device-type frames adjacent
+            out.append(("dfs", dict(driver=d, allow_late=True,
+                                    callers=[("seq", ["off", "dtq", "q"], {}), ("send", "dtq", {})]), n))
+            out.append(("rand", dict(driver=d, allow_late=True, any_start_order=True,
+                                     callers=[("send", "dtc", {}), ("seq", ["dtq", "cfg"], {}), ("send", "q", {})]),
+                        40 if not thorough else 300))
         m = 120 if thorough else 14
         out.append(("rand", dict(driver=d, any_start_order=True, budget={"noise": 1},
                                  callers=[("send", "off", {}), ("send", "emq", {}), ("seq", ["dtq", "q"] + dev, {}),
